@@ -231,7 +231,7 @@ CHECKS = {
              "The real EZSP.write_config runs for every version 4..14 against the simulated NCP with generated reported values, "
              "override sets drawn from the version's whole schema, disabled settings and 20% rejected settings (60 quick / 1500 "
              "thorough per version + corner cases); TLC evaluates the contract on each recorded run (Trace_ConfigWrite)."
-             " Every setting of every version's schema is disabled once and overridden once with the smallest and the largest accepted candidate.",
+             " Every setting of every version's schema is disabled once and overridden once with the smallest and the largest accepted candidate. The status of a refusal is the firmware's choice (invalid value, invalid id, invalid call, out of memory) and a case element.",
         design_ref="3/C16",
         note="Trusted: simulated EZSP NCP (configuration store). Bellows' default table is read from the tree as configuration; "
              "capacity settings are pinned in the spec. Found and fixed three defects (known_findings.json: fixed).",
@@ -349,7 +349,7 @@ CHECKS = {
              "status, table write, NCP table and behaviourally probed host view bound at each step."
              " Initial tables also carry free entries with left-over group ids (what unsubscribe leaves behind), including the id of a group that is live at another index, and histories contain restarts (a second start-up scan over the table the host itself produced)."
              " NcpChange: the NCP's table changes behind the host's back and start-up runs again on the same object (every pair of tables). Overlapping calls: spec/MulticastConc.tla (Begin / End per call) is model-checked for calls on different groups and bound to the real object with table writes answered when the schedule says so; overlapping calls for the same group are a recorded deviation (TLC counter-example required)."
-             " The real startup(coordinator) runs with group memberships on several endpoints (also the same group on two endpoints); no group may end up in two entries (Unique). A caller cancelled while its write is still queued in front of the NCP (CancelQueued): the write never happens, a subscribe gives its index back; Probe compares the NCP table as well.",
+             " The real startup(coordinator) runs with group memberships on several endpoints (also the same group on two endpoints); no group may end up in two entries (Unique). A caller cancelled while its write is still queued in front of the NCP (CancelQueued): the write never happens, a subscribe gives its index back; Probe compares the NCP table as well. Two overlapping unsubscribes of one group: the second clears the entry again and leaves the bookkeeping alone.",
         design_ref="3/C15",
         note="Trusted: command-level simulated NCP (does not apply rejected/timed-out writes), deep-copy "
              "behavioural probes of the host view, TLC.",
